@@ -150,6 +150,18 @@ pub fn run(ctx: &mut Ctx) {
         let Some(subs) = walk(&gbytes, gt[1].1 + 8 + 36, gbytes.len()) else { ctx.out.oracle(false, "group-sub-chunks-do-not-tile-chunk", &gdesc); continue; };
         let sl = if subs.is_empty() { "-".to_string() } else { subs.iter().map(|s| format!("{}:{}", s.0, s.2)).collect::<Vec<_>>().join(",") };
         ctx.out.case(&format!("c15group {sl}"), &format!("MOVT={} MOVI={} MONR={} MOTV={} MOCV={} MOBA={} MODR={}", g.vertices.len(), g.indices.len(), g.normals.len(), g.tex_coords.len(), g.vertex_colors.as_ref().map(|c| c.len()).unwrap_or(0), g.batches.len(), g.doodad_refs.as_ref().map(|c| c.len()).unwrap_or(0)));
+        // the crate's own group reader on the crate's own group writer's bytes
+        let gb2 = gbytes.clone();
+        match std::panic::catch_unwind(move || wow_wmo::parse_wmo(&mut Cursor::new(gb2))) {
+            Ok(Ok(wow_wmo::ParsedWmo::Group(pg))) => {
+                let same = pg.vertex_positions.len() == g.vertices.len() && pg.vertex_indices.len() == g.indices.len() && pg.vertex_normals.len() == g.normals.len() && pg.texture_coords.len() == g.tex_coords.len()
+                    && pg.vertex_positions.iter().zip(g.vertices.iter()).all(|(a, b)| a.x.to_bits() == b.x.to_bits() && a.y.to_bits() == b.y.to_bits() && a.z.to_bits() == b.z.to_bits());
+                ctx.out.oracle(same, "group-writer-output-not-readable-by-group-parser", &format!("parsed {} vertices / {} indices / {} normals :: {gdesc}", pg.vertex_positions.len(), pg.vertex_indices.len(), pg.vertex_normals.len()));
+            }
+            Ok(Ok(_)) => ctx.out.oracle(false, "group-writer-output-not-readable-by-group-parser", &format!("read as a root file :: {gdesc}")),
+            Ok(Err(e)) => ctx.out.oracle(false, "group-writer-output-not-readable-by-group-parser", &format!("{e} :: {gdesc}")),
+            Err(_) => ctx.out.oracle(false, "group-parser-panics-on-own-writer-output", &gdesc),
+        }
         ctx.out.oracle(true, "", "");
     }
 }
